@@ -279,6 +279,12 @@ func s4() {
 	if ep.RemoveHandler(9999) == nil || ep.RemoveHandler(-1) == nil {
 		vrt.Failf("unknown-handler-removable", "removing an unknown handler succeeded")
 	}
+	// every identifier around the table size (10 preallocated slots) is unknown
+	for id := 0; id <= 24; id++ {
+		if ep.RemoveHandler(id) == nil {
+			vrt.Failf("unknown-handler-removable", "removing the unknown handler %d succeeded", id)
+		}
+	}
 	h.check()
 	vrt.Observe("first=%v", e1 == nil)
 	ep.Close()
@@ -333,6 +339,17 @@ func s5() {
 		vrt.Flag("id-reused")
 	}
 	vrt.Observe("ids=%d,%d", n1.id, n2.id)
+	for id := 10; id <= 16; id++ {
+		live := false
+		for _, m := range append(fill, n1, n2) {
+			if m != h && m.id == id {
+				live = true
+			}
+		}
+		if !live && ep.RemoveHandler(id) == nil {
+			vrt.Failf("unknown-handler-removable", "removing the unknown handler %d succeeded after the table grew", id)
+		}
+	}
 	ep.Close()
 	vrt.Quiesce()
 	for _, m := range append(fill, n1, n2) {
@@ -437,6 +454,42 @@ func s7(withClose bool) func() {
 	}
 }
 
+// S7c: the peer does not read the "consumer blocked" reply (synchronous pipe):
+// dispatch is blocked inside the write while holding the table lock; Close()
+// must still return and close every handler.
+func s7c() {
+	a, b := vnet.NewPair("ep", "peer")
+	a.Sync = true
+	ep := net.NewEndPoint(a)
+	m := &mon{name: "full", match: matchAllKeep, early: true}
+	q := make(chan *net.Message) // never has room
+	gate := make(chan struct{})
+	m.drain = vrt.GoNamed("drain-full", func() {
+		<-gate
+		for msg := range q {
+			m.received = append(m.received, msg)
+		}
+		m.queueClosed = true
+	})
+	m.id = ep.MakeHandler(m.filter, q, m.closer)
+	k := register(ep, "other", matchNone, true)
+	vrt.Explore()
+	f := frame(9, 1)
+	f.Write(b) // a Call: dispatch answers "consumer blocked" and nobody reads it
+	vrt.Quiesce()
+	w := vrt.GoWorker("closer", func() { ep.Close() })
+	vrt.Quiesce()
+	close(gate)
+	vrt.Quiesce()
+	workersDone(w)
+	m.check()
+	k.check()
+	if m.closerCalls != 1 || k.closerCalls != 1 {
+		vrt.Failf("closer-count/blocked-reply", "after Close() with a blocked error reply the closers ran %d and %d times", m.closerCalls, k.closerCalls)
+	}
+	vrt.Observe("closers=%d,%d", m.closerCalls, k.closerCalls)
+}
+
 func init() {
 	add := func(name string, body func(), q, t int, doc string, must ...string) {
 		reg.Register(&reg.Scenario{Property: "C17", Name: name, Body: body, Quick: q, Thorough: t, Doc: doc, MustFlag: must})
@@ -450,5 +503,6 @@ func init() {
 	add("s5-id-reuse", s5, 2, 99, "RemoveHandler || MakeHandler x2 on a full table", "id-reused")
 	add("s7a-full-queue-call-remove", s7(false), 2, 5, "self-removing filter with a full queue gets a Call (error reply on the wire) || RemoveHandler", "consumer-blocked-answered")
 	add("s7b-full-queue-call-remove-close", s7(true), 2, 4, "same || Close()", "consumer-blocked-answered")
+	add("s7c-blocked-reply-then-close", s7c, 1, 3, "a Call for a full queue is answered on a synchronous pipe nobody reads; then Close()")
 	add("s6-receiveany-close", s6, 2, 99, "ReceiveAny || two frames || Close()")
 }
